@@ -326,31 +326,33 @@ func nullCtx(c *sup.Ctx) { sup.InitNullCtx(c) }
 // ---------------------------------------------------------------- reader
 
 type ReaderArgs struct {
-	Dir       string   `json:"dir"`
-	Name      string   `json:"name"`
-	Mode      int      `json:"mode"` // rosmar.OpenMode
-	Clock     uint64   `json:"clock"`
-	Keys      []string `json:"keys"`
-	Colls     int      `json:"colls"`
-	WaitExp   int      `json:"waitExp"` // ms to keep polling the "expiring" documents
-	NewWrites int      `json:"newWrites"`
+	Dir          string   `json:"dir"`
+	Name         string   `json:"name"`
+	Mode         int      `json:"mode"` // rosmar.OpenMode
+	Clock        uint64   `json:"clock"`
+	Keys         []string `json:"keys"`
+	Colls        int      `json:"colls"`
+	WaitExp      int      `json:"waitExp"` // ms to keep polling the "expiring" documents
+	NewWrites    int      `json:"newWrites"`
+	TryCreateNew bool     `json:"tryCreateNew"` // first try to open with CreateNew (must be refused: the bucket exists) - and must not harm it
 }
 
 type ReaderOut struct {
-	Err       string            `json:"err,omitempty"`
-	UUID      string            `json:"uuid"`
-	Colls     []string          `json:"colls"`
-	DDocs     []string          `json:"ddocs"`
-	DDocDefs  map[string]string `json:"ddocDefs"`
-	Docs      map[string]kv.Obs `json:"docs"` // "c<coll>/<key>"
-	ViewAll   []string          `json:"viewAll"`
-	ViewErr   string            `json:"viewErr,omitempty"`
-	NewCas    []uint64          `json:"newCas"`
-	ExpGoneMs map[string]int64  `json:"expGoneMs"` // ms after open at which "expiring" became unreadable (-1: still readable)
-	ExpEvents int               `json:"expEvents"`
-	ExpAbs    map[string]uint32 `json:"expAbs"`
-	OpenedAt  int64             `json:"openedAtUnixMs"`
-	AdminFill map[string]int    `json:"adminFill"` // admin-created collection -> filler documents readable after reopen
+	Err               string            `json:"err,omitempty"`
+	UUID              string            `json:"uuid"`
+	Colls             []string          `json:"colls"`
+	DDocs             []string          `json:"ddocs"`
+	DDocDefs          map[string]string `json:"ddocDefs"`
+	Docs              map[string]kv.Obs `json:"docs"` // "c<coll>/<key>"
+	ViewAll           []string          `json:"viewAll"`
+	ViewErr           string            `json:"viewErr,omitempty"`
+	NewCas            []uint64          `json:"newCas"`
+	ExpGoneMs         map[string]int64  `json:"expGoneMs"` // ms after open at which "expiring" became unreadable (-1: still readable)
+	ExpEvents         int               `json:"expEvents"`
+	ExpAbs            map[string]uint32 `json:"expAbs"`
+	OpenedAt          int64             `json:"openedAtUnixMs"`
+	CreateNewAccepted bool              `json:"createNewAccepted,omitempty"`
+	AdminFill         map[string]int    `json:"adminFill"` // admin-created collection -> filler documents readable after reopen
 }
 
 // ReaderMain is the body of `vcheck crashreader <json>`: a fresh process reopens the bucket and dumps what it sees.
